@@ -11,7 +11,6 @@ import sys
 from typing import TYPE_CHECKING
 from typing import Union
 
-from liquid import Mode
 from liquid.exceptions import LiquidSyntaxError
 from liquid.expression import Expression
 from liquid.limits import to_int
@@ -132,36 +131,43 @@ class Path(Expression):
                     break
             elif kind == TOKEN_IDENTSTRING:
                 segments.append(value)
-                if env.mode == Mode.STRICT and tokens.peek.kind == TOKEN_WORD:
-                    raise LiquidSyntaxError(
-                        f"expected a dot or bracket notation, found {tokens.peek.kind}",
-                        token=tokens.peek,
+                if tokens.peek.kind == TOKEN_WORD:
+                    env.error(
+                        LiquidSyntaxError(
+                            "expected a dot or bracket notation, "
+                            f"found {tokens.peek.kind}",
+                            token=tokens.peek,
+                        )
                     )
             elif kind == TOKEN_IDENTINDEX:
                 segments.append(to_int(value))
-                if env.mode == Mode.STRICT and tokens.peek.kind == TOKEN_WORD:
-                    raise LiquidSyntaxError(
-                        f"expected a dot or bracket notation, found {tokens.peek.kind}",
-                        token=tokens.peek,
+                if tokens.peek.kind == TOKEN_WORD:
+                    env.error(
+                        LiquidSyntaxError(
+                            "expected a dot or bracket notation, "
+                            f"found {tokens.peek.kind}",
+                            token=tokens.peek,
+                        )
                     )
             elif kind == TOKEN_LBRACKET:
                 next(tokens)
                 segments.append(Path.parse(env, tokens))
                 tokens.expect(TOKEN_RBRACKET)
-                if env.mode == Mode.STRICT and tokens.peek.kind == TOKEN_WORD:
-                    raise LiquidSyntaxError(
-                        f"expected a dot or bracket notation, found {tokens.peek.kind}",
-                        token=tokens.peek,
+                if tokens.peek.kind == TOKEN_WORD:
+                    env.error(
+                        LiquidSyntaxError(
+                            "expected a dot or bracket notation, "
+                            f"found {tokens.peek.kind}",
+                            token=tokens.peek,
+                        )
                     )
             elif kind == TOKEN_DOT:
-                if (
-                    not env.shorthand_indexes
-                    and env.mode == Mode.STRICT
-                    and tokens.peek.kind != TOKEN_WORD
-                ):
-                    raise LiquidSyntaxError(
-                        f"expected an identifier, found {tokens.peek.kind}",
-                        token=tokens.peek,
+                if not env.shorthand_indexes and tokens.peek.kind != TOKEN_WORD:
+                    env.error(
+                        LiquidSyntaxError(
+                            f"expected an identifier, found {tokens.peek.kind}",
+                            token=tokens.peek,
+                        )
                     )
             elif kind == TOKEN_FLOAT and env.shorthand_indexes:
                 segments.extend(to_int(i) for i in value.rstrip(".").split("."))
